@@ -41,7 +41,7 @@ ASSUMPTIONS = [
     "bounds: respondent 5.1 + 10 + 3 + 3 s, supplicant 10 + 5.1 + 10 + 10 s (the stated waits plus the binding QoS send timeout), +1 s slack",
     "'all frames eventually delivered' for clause (1) = no phase lost to the peer and no delay of 2.5 s or more",
 ]
-REQUIRED = {"solo.attempts": 12, "solo.succeeded": 6, "attempts": 40, "attempts.clean_expected": 10, "attempts.faulted": 20, "retries": 30, "both_succeeded": 10}
+REQUIRED = {"afterwards.checked.at_once": 20, "attempts.cancelled_by_caller": 10, "solo.attempts": 12, "solo.succeeded": 6, "attempts": 40, "attempts.clean_expected": 10, "attempts.faulted": 20, "retries": 30, "both_succeeded": 10}
 
 FLOWS: list[dict[str, Any]] = [
     {
@@ -211,7 +211,7 @@ def benign(script: Script) -> bool:
     return all(p["kind"] == "copies" or (p["kind"] == "delay" and p["secs"] < 2.5) or (p["kind"] == "echo_lost" and p["times"] == 1) for p in script.plan.values())
 
 
-async def attempt(loop, ctx, flow: dict[str, Any], resp, supp, air, script: Script, rng, third_party: bool, stagger: float) -> dict[str, Any]:
+async def attempt(loop, ctx, flow: dict[str, Any], resp, supp, air, script: Script, rng, third_party: bool, stagger: float, cancel: dict[str, Any] | None = None) -> dict[str, Any]:
     """One handshake: both ends start; returns what each side observed."""
     from ramses_rf import exceptions as rexc
     from ramses_tx import Command
@@ -231,8 +231,15 @@ async def attempt(loop, ctx, flow: dict[str, Any], resp, supp, air, script: Scri
     async def side(name: str, coro, bound: float) -> None:
         t0 = loop.time()
         try:
-            res = await asyncio.wait_for(coro, timeout=bound + 30)
+            inner = asyncio.ensure_future(coro)
+            if cancel and cancel["side"] == name:  # the application gives up on the attempt (its own time-out, shutdown)
+                loop.call_later(cancel["at"], inner.cancel)
+            res = await asyncio.wait_for(inner, timeout=bound + 30)
             out[name] = {"outcome": "tuple", "pkts": [str(p) if p is not None else None for p in res], "took": loop.time() - t0}
+        except asyncio.CancelledError:
+            if not (cancel and cancel["side"] == name):
+                raise
+            out[name] = {"outcome": "cancelled-by-caller", "took": loop.time() - t0}
         except rexc.BindingError as err:
             out[name] = {"outcome": "binding-error", "error": type(err).__name__, "took": loop.time() - t0}
         except asyncio.TimeoutError:
@@ -288,12 +295,21 @@ async def episode(loop: vloop.VirtualLoop, ctx, trial: int) -> None:
         meta["script"] = {}
     script.on = True
 
+    cancel = None
+    if systematic is None and rng.random() < 0.2:
+        cancel = {"side": rng.choice(("supplicant", "respondent")), "at": rng.choice((0.001, 0.05, 0.3, 0.6, 1.7, 2.9, 4.0))}
+        meta["cancelled_by_caller"] = cancel
+        ctx.count("attempts.cancelled_by_caller")
     n_unhandled = len(loop.unhandled)
-    out = await attempt(loop, ctx, flow, resp, supp, air, script, rng, third, stagger)
-    await asyncio.sleep(6.0)  # let every stated timer run out
+    out = await attempt(loop, ctx, flow, resp, supp, air, script, rng, third, stagger, cancel)
+    # both calls have ended: a new attempt may start - at once, or after every stated timer has run out
+    # (not while frames of this attempt are still held up on the air: they would arrive in the middle of the next one)
+    settle = rng.choice((6.0, 6.0, 6.0, 0.0, 0.3, 2.0)) if systematic is None and all(p["kind"] != "delay" for p in script.plan.values()) else 6.0
+    meta["retry_after_s"] = settle
+    await asyncio.sleep(settle)
     await vloop.drain(loop, 6)
     ctx.count("attempts")
-    clean = benign(script) and stagger < 4.0
+    clean = benign(script) and stagger < 4.0 and cancel is None
     ctx.count("attempts.clean_expected" if clean else "attempts.faulted")
 
     def judge(out: dict[str, Any], tag: str, must_succeed: bool) -> None:
@@ -326,6 +342,7 @@ async def episode(loop: vloop.VirtualLoop, ctx, trial: int) -> None:
 
     judge(out, "attempt", clean)
     for dev, name in ((resp, "respondent"), (supp, "supplicant")):
+        ctx.count("afterwards.checked" + (".at_once" if settle < 6.0 else ""))
         if dev._bind_context.is_binding:
             ctx.violate(
                 f"C20|afterwards|{name}-still-binding|after-{out.get(name, {}).get('outcome')}",
